@@ -151,6 +151,11 @@ def gen_client_program(rng, w, task_idx, calcs, shots, n_ops, raising_calcs, all
             prog.append({"op": "new_calc", "calc": c})
             created.append(c)
             continue
+        # "repeating it gives bit-identical results": sometimes repeat an earlier computation verbatim
+        prev = [o for o in prog if o.get("op") in ("fire", "zero", "elev")]
+        if prev and rng.random() < 0.18:
+            prog.append(dict(gen.pick(rng, prev)))
+            continue
         c = gen.pick(rng, created)
         s = gen.pick(rng, shots)
         r = rng.random()
